@@ -195,6 +195,88 @@ theorem unregistered_key_sees_history :
       RS.batch (annotRS [] (fun (_ : Nat) => 5)
         (fun e j => [e + (match j with | some _ => 100 | none => 0)])) [1] := by decide
 
+/-! ### process-level memo tables: harmless exactly when the key determines the cached value -/
+
+/-- every cached value is what a fresh computation would give for any event with that key -/
+def MemoConsistent {ν : Type} (ckey : ε → String) (val : ε → ν) (m : Memo ν) : Prop :=
+  ∀ k v, memoLookup k m = some v → ∀ e, ckey e = k → val e = v
+
+/-- the cache key determines the cached value -/
+def KeyDetermines {ν : Type} (ckey : ε → String) (val : ε → ν) : Prop :=
+  ∀ a b, ckey a = ckey b → val a = val b
+
+theorem memoStep_spec {ν : Type} (ckey : ε → String) (val : ε → ν) (g : ε → ν → List ε)
+    (hk : KeyDetermines ckey val) (m : Memo ν) (hm : MemoConsistent ckey val m) (e : ε) :
+    (memoStep ckey val g m e).2 = g e (val e) ∧ MemoConsistent ckey val (memoStep ckey val g m e).1 := by
+  unfold memoStep
+  cases hl : memoLookup (ckey e) m with
+  | some v =>
+    have := hm (ckey e) v hl e rfl
+    exact ⟨by simp [this], hm⟩
+  | none =>
+    refine ⟨rfl, ?_⟩
+    intro k v hkv e' he'
+    simp only [memoLookup] at hkv
+    by_cases h : ckey e = k
+    · simp only [h, if_true, Option.some.injEq] at hkv
+      rw [← hkv]
+      exact hk e' e (by rw [he', h])
+    · simp only [h, if_false] at hkv
+      exact hm k v hkv e' he'
+
+/-- **A process-level cache whose key determines the cached value is invisible:** started from any
+consistent table (in particular from whatever earlier runs left), a run outputs exactly what it
+outputs without any cache, and leaves a consistent table. -/
+theorem memo_invisible {ν : Type} (ckey : ε → String) (val : ε → ν) (g : ε → ν → List ε)
+    (hk : KeyDetermines ckey val) (m : Memo ν) (hm : MemoConsistent ckey val m) (xs : List ε) :
+    (memoRun ckey val g m xs).2 = xs.flatMap (fun e => g e (val e)) ∧
+      MemoConsistent ckey val (memoRun ckey val g m xs).1 := by
+  induction xs generalizing m with
+  | nil => exact ⟨rfl, hm⟩
+  | cons e es ih =>
+    obtain ⟨h1, h2⟩ := memoStep_spec ckey val g hk m hm e
+    obtain ⟨h3, h4⟩ := ih _ h2
+    exact ⟨by simp [memoRun, h1, h3], h4⟩
+
+/-- … hence after any history of runs in the process, starting from the empty table -/
+theorem memo_history_invisible {ν : Type} (ckey : ε → String) (val : ε → ν) (g : ε → ν → List ε)
+    (hk : KeyDetermines ckey val) (past : List (List ε)) (xs : List ε) :
+    (memoRun ckey val g (memoHistory ckey val g [] past) xs).2 = (memoRun ckey val g [] xs).2 := by
+  have hcons : ∀ (m : Memo ν), MemoConsistent ckey val m →
+      MemoConsistent ckey val (memoHistory ckey val g m past) := by
+    induction past with
+    | nil => intro m hm; exact hm
+    | cons ys rest ih => intro m hm; exact ih _ (memo_invisible ckey val g hk m hm ys).2
+  have h0 : MemoConsistent ckey val ([] : Memo ν) := by
+    intro k v h; simp [memoLookup] at h
+  rw [(memo_invisible ckey val g hk _ (hcons [] h0) xs).1, (memo_invisible ckey val g hk [] h0 xs).1]
+
+/-- an event of the classification experiment: (dialect, name) -/
+abbrev CEv := Nat × String
+
+/-- `acc_kernel`: FLEX `is.name;Cmpt Exec$` vs TORCH `is.cat;kernel` — the expression depends on the dialect -/
+def kernelExpr (e : CEv) : String := if e.1 = dFLEX then "name:Cmpt Exec$" else "cat:kernel"
+
+/-- **The excluded case, as a witness:** a table keyed by the category name only (the key does not
+determine the value: the expression also depends on the dialect).  The FLEX event is classified
+with the TORCH expression after a TORCH run, and with its own in a fresh interpreter. -/
+theorem memo_keyed_by_category_only_leaks :
+    (memoRun (fun (_ : CEv) => "acc_kernel") kernelExpr (fun e v => [(e.1, v)])
+        (memoHistory (fun (_ : CEv) => "acc_kernel") kernelExpr (fun e v => [(e.1, v)]) []
+          [[(dTORCH, "mm_kernel")]])
+        [(dFLEX, "mm Cmpt Exec")]).2 ≠
+      (memoRun (fun (_ : CEv) => "acc_kernel") kernelExpr (fun e v => [(e.1, v)]) []
+        [(dFLEX, "mm Cmpt Exec")]).2 := by decide
+
+/-- keyed by (dialect, category) the key determines the value -/
+def dialectKey (e : CEv) : String := if e.1 = dFLEX then "FLEX/acc_kernel" else "TORCH/acc_kernel"
+
+example : KeyDetermines dialectKey kernelExpr := by
+  intro a b h
+  unfold dialectKey at h
+  unfold kernelExpr
+  by_cases ha : a.1 = dFLEX <;> by_cases hb : b.1 = dFLEX <;> simp [ha, hb] at h ⊢
+
 /-! ### non-vacuity: a run with a job lookup, a hash grouping, two barriers and `-I` -/
 
 def demoRun : Run Nat :=
